@@ -144,6 +144,8 @@ def init_obj(d):
         return {"v": d["init"], "other": False}
     if k in ("tcp", "relaxed"):
         return {"sent": []}
+    if k in ("tcp_local", "relaxed_local"):
+        return {"q": []}
     raise ValueError(k)
 
 
@@ -236,6 +238,12 @@ def obj_step(kind, o, op, path, val):
             raise Crash()
         o["sent"].append(val)
         return None
+    if kind in ("tcp_local", "relaxed_local"):
+        if op != "r" or len(path) != 1:
+            raise Crash()
+        if not o["q"]:
+            raise Block()
+        return o["q"].pop(0)
     raise ValueError(kind)
 
 
@@ -244,6 +252,8 @@ def obj_snap(kind, o, keys):
         return o["v"]
     if kind in ("inchan", "custominchan"):
         return None
+    if kind in ("tcp_local", "relaxed_local"):
+        return T(*[None for _ in keys])
     if kind in ("outchan", "singleout"):
         return T(*o["sent"])
     if kind == "filesystem":
@@ -297,6 +307,8 @@ class Ref:
         o = self.state[ev[1]]
         if ev[0] == "push":
             o["q"].append(ev[2])
+        elif ev[0] == "pushb":
+            o["q"].extend(ev[2])
         elif ev[0] == "other":
             if "other" in o:
                 o["other"] = ev[2]
@@ -399,7 +411,7 @@ def paths_of(v):
 
 KIND_WEIGHTS = [("local", 5), ("inchan", 3), ("outchan", 3), ("filesystem", 2), ("incmap_local", 3), ("hashmap_local", 1),
                 ("persist", 2), ("incmap_persist", 1), ("plog", 2), ("shared", 2), ("dummy", 1), ("custominchan", 1),
-                ("singleout", 0.6), ("tcp", 0.5), ("relaxed", 0.4)]
+                ("singleout", 0.6), ("tcp", 0.5), ("relaxed", 0.4), ("tcp_local", 0.5), ("relaxed_local", 0.3)]
 
 
 def gen_res(rng, name, kind):
@@ -470,6 +482,10 @@ def gen_op(rng, ref, d, malformed):
         return ["r", name, [rng.randint(1, n)]]
     if kind in ("tcp", "relaxed"):
         return ["w", name, [0], rng.choice([21, 22, "net"])]
+    if kind in ("tcp_local", "relaxed_local"):
+        if st["q"] or rng.random() < 0.15:
+            return ["r", name, [0]]
+        return ["await", True]
     raise ValueError(kind)
 
 
@@ -479,7 +495,7 @@ def gen_case(rng, malformed=False):
     res = []
     for i in range(nres):
         kind = rng.choices(kinds, weights)[0]
-        if kind in ("tcp", "relaxed") and any(d["kind"] in ("tcp", "relaxed") for d in res):
+        if kind in ("tcp", "relaxed", "tcp_local", "relaxed_local") and any(d["kind"] in ("tcp", "relaxed", "tcp_local", "relaxed_local") for d in res):
             kind = "local"
         res.append(gen_res(rng, "r%d" % i, kind))
     snap = [[".pc", []]]
@@ -490,7 +506,7 @@ def gen_case(rng, malformed=False):
             snap.append([d["name"], [kv[0] for kv in d["table"]]])
         elif d["kind"] == "filesystem":
             snap.append([d["name"], ["f1", "f2", "f3"]])
-        elif d["kind"] in ("tcp", "relaxed"):
+        elif d["kind"] in ("tcp", "relaxed", "tcp_local", "relaxed_local"):
             snap.append([d["name"], [0]])
         else:
             snap.append([d["name"], []])
@@ -504,6 +520,8 @@ def gen_case(rng, malformed=False):
         for d in res:
             if d["kind"] in ("inchan", "custominchan") and rng.random() < 0.35:
                 at["env"].append(["push", d["name"], rng.choice([13, 14, "m3"])])
+            if d["kind"] in ("tcp_local", "relaxed_local") and rng.random() < 0.6:
+                at["env"].append(["pushb", d["name"], [rng.choice([31, 32, "nm"]) for _ in range(rng.randint(1, 3))]])
             if d["kind"] in ("shared", "singleout") and rng.random() < 0.25:
                 cur = ref.state[d["name"]].get("other", ref.state[d["name"]].get("full"))
                 at["env"].append(["other", d["name"], not cur])
@@ -527,6 +545,8 @@ def gen_case(rng, malformed=False):
                     d = rng.choice(res)
                     op = gen_op(rng, scratch, d, malformed and rng.random() < 0.3)
                     at["ops"].append(op)
+                    if op[0] == "await":
+                        continue
                     try:
                         if op[0] == "r":
                             last = obj_step(d["kind"], scratch.state[d["name"]], "r", op[2], None)
@@ -573,6 +593,8 @@ def gen_case(rng, malformed=False):
                 ops.append(["r", d["name"], []])
             elif k == "inchan":
                 ops += [["r", d["name"], []] for _ in o["q"]]
+            elif k in ("tcp_local", "relaxed_local"):
+                ops += [["r", d["name"], [0]] for _ in o["q"]]
             elif k == "plog":
                 ops.append(["r", d["name"], []])
             elif k in ("incmap_local", "incmap_persist"):
@@ -619,6 +641,8 @@ def coq_node(d):
         return "mk_incmap (fun _ => LRelaxed false [] [] false)"
     if k == "tcp":
         return "mk_incmap (fun _ => LTcp false [] [])"
+    if k in ("tcp_local", "relaxed_local"):
+        return "mk_incmap (fun _ => LIn [] [] [])"
     raise ValueError(k)
 
 
@@ -627,6 +651,8 @@ def coq_attempt(at):
     for ev in at.get("env", []):
         if ev[0] == "push":
             env.append("EPush %s %s" % (vlib.coq_str(ev[1]), coq_val(canon(ev[2]))))
+        elif ev[0] == "pushb":
+            env += ["EPushAt %s (VI 0%%Z) %s" % (vlib.coq_str(ev[1]), coq_val(canon(v))) for v in ev[2]]
         else:
             env.append("EOther %s %s" % (vlib.coq_str(ev[1]), vlib.coq_bool(ev[2])))
     ops = []
